@@ -31,3 +31,93 @@ def log_to_coq(log, mx_of_eval, mx_of_deriv):
 
 def steps_by_op(res):
     return [(s["op"], s) for s in res.get("steps", [])]
+
+
+# ------------------------------------------------------------------------------------------
+# scenario generation shared by the problem-level properties
+
+FAMILIES = {
+    # name: (basis, nparams, parameter range)
+    "exp2c": ([["expdecay", 0], ["expdecay", 1], ["const"]], 2, (0.5, 6.0)),
+    "exp1l": ([["expdecay", 0], ["lin"]], 1, (0.5, 6.0)),
+    "gaussc": ([["gauss", 0, 1], ["const"]], 2, (0.75, 3.0)),
+    "rat2": ([["rat", 0], ["rat", 1]], 2, (0.25, 4.0)),
+    "shared": ([["exprate", 0], ["expcos", 0, 1]], 2, (0.25, 1.5)),
+    "cosmix": ([["cos", 0], ["exprate", 1], ["const"], ["lin"]], 2, (0.25, 1.5)),
+    "poly": ([["poly", 0, 1], ["sq", 0], ["const"]], 2, (-3.0, 3.0)),
+    "exp3": ([["exprate", 0], ["exprate", 1], ["exprate", 2]], 3, (0.125, 2.0)),
+}
+
+
+def dyadic(rng, lo, hi, bits=4):
+    """a random multiple of 2^-bits in [lo, hi]"""
+    s = 1 << bits
+    return rng.randint(int(lo * s), int(hi * s)) / s
+
+
+def distinct_params(rng, n, lo, hi, bits=4, sep=0.5):
+    for _ in range(200):
+        v = [dyadic(rng, lo, hi, bits) for _ in range(n)]
+        if all(abs(v[i] - v[j]) >= sep for i in range(n) for j in range(i)) and all(abs(t) > 1e-9 for t in v):
+            return v
+    return [lo + (hi - lo) * (i + 1) / (n + 1) for i in range(n)]
+
+
+def gen_problem(rng, scalar=None, family=None, N=None, S=None, ctor=None, weights=None, quant=8, eps=None,
+                builder_made=None, fail_below=None, dirty_fail=False):
+    """a random well-formed fitting problem; returns the scenario head (no ops)"""
+    scalar = scalar or rng.choice(["f64", "f64", "f32"])
+    family = family or rng.choice(list(FAMILIES))
+    basis, P, (lo, hi) = FAMILIES[family]
+    M = len(basis)
+    N = N or rng.randint(M + 1, M + 6)
+    ctor = ctor or rng.choice(["new", "mrhs", "new_parallel", "mrhs_parallel"])
+    mr = ctor.startswith("mrhs")
+    S = (S or rng.randint(1, 3)) if mr else 1
+    x = [0.25 * (i + 1) for i in range(N)]
+    init = distinct_params(rng, P, lo, hi)
+    if builder_made is None:
+        builder_made = rng.random() < 0.4
+    if fail_below is not None:
+        builder_made = False
+    spec = model_spec(x, basis, P, init, scalar=scalar, quant=quant, builder_made=builder_made,
+                      fail_below=fail_below, dirty_fail=dirty_fail)
+    Y = [[hx(dyadic(rng, -4, 4, 3), scalar) for _ in range(N)] for _ in range(S)]
+    build = [["obs", N, Y]]
+    wkind = weights if weights is not None else rng.choice(["none", "none", "pos", "mixed", "unit"])
+    if wkind != "none":
+        if wkind == "unit":
+            w = [1.0] * N
+        elif wkind == "pos":
+            w = [dyadic(rng, 0.25, 4, 2) for _ in range(N)]
+        else:
+            w = [rng.choice([0.0, -1.5, 0.5, 2.0, 1.0, 0.25, 8.0]) for _ in range(N)]
+        build.append(["weights", [hx(v, scalar) for v in w]])
+    if eps is not None:
+        build.append(["eps", hx(eps, scalar)])
+    return {"scalar": scalar, "ctor": ctor, "model": spec, "faults": None, "build": build, "ops": [],
+            "meta": {"family": family, "N": N, "M": M, "P": P, "S": S, "weights": wkind, "range": [lo, hi]}}
+
+
+def canon_log(log, parallel):
+    """parallel Jacobian rounds call the derivatives in a schedule dependent order (and may skip
+    calls after a failure): canonicalise each round (the harness numbers them) to index order, cut
+    after the first failing index — the sequence the sequential flavour performs"""
+    if not parallel:
+        return log
+    out, i = [], 0
+    while i < len(log):
+        if log[i][0] != "D":
+            out.append(log[i])
+            i += 1
+            continue
+        j = i
+        while j < len(log) and log[j][0] == "D" and log[j][3] == log[i][3]:
+            j += 1
+        run = sorted(log[i:j], key=lambda e: e[1])
+        for e in run:
+            out.append(e)
+            if not e[2]:
+                break
+        i = j
+    return out
